@@ -197,7 +197,7 @@ class HyperbandOracle(oracle_module.Oracle):
                     values["tuner/initial_epoch"] = self._get_epochs(
                         bracket_num, round_num - 1
                     )
-                    values["tuner/bracket"] = self._current_bracket
+                    values["tuner/bracket"] = bracket_num
                     values["tuner/round"] = round_num
 
                     round_info.append(
